@@ -79,8 +79,6 @@ def run_cba(eng, case):
 
     def do_free(x):
         label = f'free {x}'
-        if x is not None and x - a.addr_offset < 0:
-            return f'{label} -> NegativeIndex'       # Python would wrap around: outside the domain
         try:
             a.free(x)
         except Exception as e:
